@@ -30,6 +30,7 @@ def harnesses(tier):
         h += P.generated_h(4, [(1, 0), (1, 1), (2, 0), (2, 1), (3, 1)], "sync")
         h += P.curated_h(ALL, [(1, 0), (1, 1), (2, 0), (2, 1)], "line")
     h += P.scale_h(tier, ["S10-callable-kinds", "S1-twelve-tasks", "S2-ten-prequeued", "S4-two-submitters-five-each", "S8-backlog-behind-gate"])  # many tasks / restarts / larger pools, first ladder levels
+    h += P.fault_h(tier)  # a worker-thread creation that fails
     return h
 
 
@@ -51,7 +52,7 @@ META = {
     "(quick) / <=4 (thorough) over {start, stop, enqueue returning/raising/gated, open gate, result, join, join(t), sleep past the idle timeout} "
     "plus 24 curated two-thread programs; every schedule with <=K preemptions and <=T early timer firings (K,T in the harness label) at "
     "synchronisation-operation granularity, and at source-line granularity of threadpool.py for the programs aimed at unsynchronised code; "
-    "plus 'scale' programs (12 tasks, 10 pre-queued, 4 restarts, two submitters x 5, bounded queue x 6, 4-chain, idle cycles, backlog behind a gate, restart with backlog) on pools up to (5,0)/(6,3) at the first ladder levels; "
+    "plus programs in which one creation of a worker thread fails with RuntimeError (inside start(), also after a restart); plus 'scale' programs (12 tasks, 10 pre-queued, 4 restarts, two submitters x 5, bounded queue x 6, 4-chain, idle cycles, backlog behind a gate, restart with backlog) on pools up to (5,0)/(6,3) at the first ladder levels; "
     "non-trivial = execution with at least one choice point; distinct by (harness, choice sequence)",
     "bounds": {"quick": {"program_length": 3, "levels": "iterative (K,T) in (0,0) (1,0) (1,1) (2,1) (3,1) (3,2) (4,2): next level while its predicted size (last level x observed growth) is <= 1500 executions; deepest completed level per harness in notes.completed_bounds", "sizes": "(1,0) (1,1) (2,0) (2,1)"},
                "thorough": {"program_length": 4, "levels": "same ladder, predicted size <= 60000 executions", "sizes": "all eight (max,min) with max<=3"}},
